@@ -188,6 +188,17 @@ def prop_args(S, *, ops_unary=UNARY_TF, ops_binary=BINARY, paired_max=1, wide=Tr
         for q in small:
             if atom_order_canonical((p, q)):
                 add(arg(q, (p,)))
+    # rule-shape sentences (negated / operand-negated binaries) against literals, both directions
+    lits4 = [A, B, ~A, ~B]
+    shapes = []
+    for o in ops_binary:
+        shapes += [~Operated(o, (A, B)), Operated(o, (~A, B)), Operated(o, (A, ~B)), ~Operated(o, (~A, B))]
+    for sh in shapes:
+        for l in lits4:
+            if atom_order_canonical((l, sh)):
+                add(arg(sh, (l,)))
+            if atom_order_canonical((sh, l)):
+                add(arg(l, (sh,)))
     if wide:
         if wide == 'small':
             wp = [A, B, ~A, ~B] + [Operated(o, (A, B)) for o in (OR, MC, BC) if o in ops_binary]
